@@ -4,6 +4,7 @@ import (
 	"fmt"
 	"go/ast"
 	"pigeonverif/internal/load"
+	"regexp"
 	"sort"
 	"strings"
 
@@ -75,6 +76,8 @@ func C08(c *Ctx) {
 
 	r.Rule("C08-e", "every left-recursive group gets a leader: ComputeLeftRecursives sets Leader on the rule findLeader returns for an SCC with more than one rule and on the rule itself for a self-loop - in the same branches that set LeftRecursive - otherwise the runtime evaluates the cycle plainly and recurses without end")
 	c08Leaders(c)
+	r.Rule("C08-f", "the first-invocation graph is read-only for its consumers: no function that receives the graph built by MakeFirstGraph (findLeader, FindCyclesInSCC, reduceGraph, the component search) stores into it or into one of its adjacency sets - ComputeLeftRecursives consults the same graph for every component in turn")
+	firstGraphReadOnly(c, "C08-f")
 	abs := c.allAbs()
 	n := 0
 	for _, a := range abs {
@@ -206,6 +209,7 @@ func c08d(c *Ctx, a *absVariant) {
 		r.Fatal("variant %s: leader missing", v.Name)
 		return
 	}
+	const construct = "T.parseRuleRecursiveLeader:strict-growth"
 	var loop *ast.ForStmt
 	ast.Inspect(fd.Body, func(n ast.Node) bool {
 		if f, ok := n.(*ast.ForStmt); ok && loop == nil {
@@ -214,66 +218,210 @@ func c08d(c *Ctx, a *absVariant) {
 		return true
 	})
 	if loop == nil || loop.Cond != nil {
-		r.Unk("C08-d", "T.parseRuleRecursiveLeader:strict-growth", v.Name, v.Where(fd.Pos()), "growth loop not found in the expected `for { … break … }` form")
+		r.Unk("C08-d", construct, v.Name, v.Where(fd.Pos()), "growth loop not found in the expected `for { … break … }` form")
 		return
 	}
-	var brk *ast.IfStmt
-	for _, st := range loop.Body.List {
-		if is, ok := st.(*ast.IfStmt); ok {
-			hasBreak := false
-			ast.Inspect(is.Body, func(n ast.Node) bool {
-				if b, ok := n.(*ast.BranchStmt); ok && b.Tok.String() == "break" {
-					hasBreak = true
-				}
+	rv := recvName(fd)
+	// one iteration of the loop on its normalised paths: what it assumes (facts), what it stores, how it ends
+	paths := c.vnorm(v).without("parseRule", "cloneState", "restoreState", "setMemoized", "getMemoized", "restore", "printIndent", "sliceFrom", "addErr", "addErrAt").normBlock(fd, loop.Body.List)
+	if len(paths) == 0 {
+		r.Unk("C08-d", construct, v.Name, v.Where(loop.Pos()), "the body of the growth loop could not be enumerated")
+		return
+	}
+	leaves := func(p bpath) bool {
+		for _, e := range p {
+			if e.Kind == "branch" && strings.HasPrefix(e.Text, "break") || e.Kind == "return" {
 				return true
-			})
-			if hasBreak {
-				brk = is
+			}
+		}
+		return false
+	}
+	// the roles, from what the continuing iterations do: the attempt (second result of the rule evaluation), the
+	// depth counter (incremented), the best result so far (a resultTuple stored from the attempt)
+	okText, depthVar, lastVar, errsVar := "", "", "", ""
+	for _, p := range paths {
+		for _, e := range p {
+			if e.Kind == "call" && strings.HasPrefix(e.Text, rv+".parseRule(") {
+				okText = "res1(" + e.Text + ")"
+			}
+		}
+		if leaves(p) {
+			continue
+		}
+		for _, e := range p {
+			if e.Kind != "set" {
+				continue
+			}
+			switch {
+			case dollarRe.MatchString(e.Text) && (strings.HasSuffix(e.Text, "++") || strings.HasSuffix(e.Text, "+=1")):
+				depthVar = dollarRe.FindString(e.Text)
+			case strings.Contains(e.Text, "=resultTuple{"):
+				lastVar = e.Text[:strings.Index(e.Text, "=")]
+			case strings.HasSuffix(e.Text, "=*"+rv+".errs"):
+				errsVar = e.Text[:strings.Index(e.Text, "=")]
 			}
 		}
 	}
 	var bad []string
-	if brk == nil {
-		bad = append(bad, "no breaking if in the loop")
+	if okText == "" || depthVar == "" || lastVar == "" {
+		bad = append(bad, fmt.Sprintf("roles not recognised on the continuing iterations (attempt=%q depth=%q best-result=%q): a continuing iteration must store the attempt as the new best result and count the depth", okText, depthVar, lastVar))
 	} else {
-		cond := nospace(brk.Cond)
-		okCond := cond == "(!ok)||(endMark.offset<=lastResult.end.offset&&depth!=0)" || cond == "!ok||(endMark.offset<=lastResult.end.offset&&depth!=0)" || cond == "!ok||endMark.offset<=lastResult.end.offset&&depth!=0"
-		if !okCond {
-			bad = append(bad, "break condition is `"+cond+"`: the loop must stop unless the attempt succeeded and ended strictly beyond the previous end")
+		// the three questions an iteration asks, in any spelling
+		const aOK, aFirst, aGrow = "OKATTEMPT", "FIRSTROUND", "GREWBEYOND"
+		growPos := regexp.MustCompile(`^(.+)\.offset>` + regexp.QuoteMeta(lastVar) + `\.end\.offset$|^` + regexp.QuoteMeta(lastVar) + `\.end\.offset<(.+)\.offset$`)
+		growNeg := regexp.MustCompile(`^(.+)\.offset<=` + regexp.QuoteMeta(lastVar) + `\.end\.offset$|^` + regexp.QuoteMeta(lastVar) + `\.end\.offset>=(.+)\.offset$`)
+		atomOf := func(t string) (string, bool) {
+			switch {
+			case t == okText:
+				return aOK, true
+			case t == "!"+okText:
+				return "!" + aOK, true
+			case t == depthVar+"==0", t == depthVar+"<=0", t == depthVar+"<1":
+				return aFirst, true
+			case t == depthVar+"!=0", t == depthVar+">0", t == depthVar+">=1":
+				return "!" + aFirst, true
+			case growPos.MatchString(t):
+				return aGrow, true
+			case growNeg.MatchString(t):
+				return "!" + aGrow, true
+			}
+			return "", false
 		}
-		// updates only after the break test
-		for _, st := range loop.Body.List {
-			if as, ok := st.(*ast.AssignStmt); ok {
-				l := nospace(as.Lhs[0])
-				if (l == "lastResult" || l == "lastErrors") && st.Pos() < brk.Pos() {
-					bad = append(bad, l+" updated before the break test")
+		var rewrite func(f string) (string, bool)
+		rewrite = func(f string) (string, bool) {
+			if ds := splitTop(f, "||"); len(ds) > 1 {
+				var out []string
+				for _, d := range ds {
+					t, ok := rewrite(d)
+					if !ok {
+						return "", false
+					}
+					out = append(out, "("+t+")")
+				}
+				return strings.Join(out, "||"), true
+			}
+			if cs := splitTop(f, "&&"); len(cs) > 1 {
+				var out []string
+				for _, d := range cs {
+					t, ok := rewrite(d)
+					if !ok {
+						return "", false
+					}
+					out = append(out, "("+t+")")
+				}
+				return strings.Join(out, "&&"), true
+			}
+			if strings.HasPrefix(f, "(") && strings.HasSuffix(f, ")") && wholeParen(f) {
+				return rewrite(f[1 : len(f)-1])
+			}
+			return atomOf(f)
+		}
+		atoms := []string{aOK, aFirst, aGrow}
+		type row struct{ cont, leave bool }
+		table := map[string]*row{}
+		for mask := 0; mask < 8; mask++ {
+			sigma := map[string]bool{aOK: mask&1 != 0, aFirst: mask&2 != 0, aGrow: mask&4 != 0}
+			rw := &row{}
+			table[sigmaKey(atoms, sigma)] = rw
+			for _, p := range paths {
+				consistent := true
+				for _, f := range p.facts() {
+					t, ok := rewrite(f)
+					if !ok {
+						if f != rv+".debug" && f != "!"+rv+".debug" {
+							bad = append(bad, "whether the loop continues depends on `"+abbreviate(f)+"`")
+						}
+						continue
+					}
+					if val, ok := evalBool(t, atoms, sigma); ok && !val {
+						consistent = false
+					}
+				}
+				if consistent {
+					if leaves(p) {
+						rw.leave = true
+					} else {
+						rw.cont = true
+					}
 				}
 			}
-		}
-		// endMark := p.pt directly after the evaluation; depth++ on continue
-		txt := ""
-		for _, st := range loop.Body.List {
-			switch x := st.(type) {
-			case *ast.AssignStmt:
-				txt += nospace(x.Lhs[0]) + "=" + nospace(x.Rhs[0]) + ";"
-			case *ast.IncDecStmt:
-				txt += nospace(x.X) + x.Tok.String() + ";"
-			case *ast.ExprStmt:
-				txt += nospace(x.X) + ";"
+			want := sigma[aOK] && (sigma[aFirst] || sigma[aGrow])
+			switch {
+			case rw.cont && !want:
+				bad = append(bad, "the loop continues for "+describeSigma([]string{"attempt succeeded", "first round", "ended beyond the previous end"}, map[string]bool{"attempt succeeded": sigma[aOK], "first round": sigma[aFirst], "ended beyond the previous end": sigma[aGrow]})+": it must stop unless the attempt succeeded and (after the first round) ended strictly beyond the previous end")
+			case !rw.cont && want:
+				bad = append(bad, "the loop stops for "+describeSigma([]string{"attempt succeeded", "first round", "ended beyond the previous end"}, map[string]bool{"attempt succeeded": sigma[aOK], "first round": sigma[aFirst], "ended beyond the previous end": sigma[aGrow]})+": a longer match is not taken")
+			case rw.cont && rw.leave:
+				bad = append(bad, "continuing and leaving are both possible for the same answers")
 			}
 		}
-		for _, need := range []string{"endMark=p.pt;", "lastResult=resultTuple{", "lastErrors=*p.errs;", "p.restore(startMark);", "depth++;"} {
-			if !strings.Contains(txt, need) {
-				bad = append(bad, "missing `"+strings.TrimSuffix(need, ";")+"…` in the loop body")
+		// what the two kinds of iteration store
+		for _, p := range paths {
+			sets := p.texts("set")
+			calls := p.texts("call")
+			if leaves(p) {
+				for _, st := range sets {
+					if strings.HasPrefix(st, lastVar+"=") || (errsVar != "" && strings.HasPrefix(st, errsVar+"=")) {
+						bad = append(bad, "an iteration that leaves the loop updates the best result ("+abbreviate(st)+")")
+					}
+				}
+				continue
+			}
+			okStore, okErrs, okRestore := false, errsVar == "", false
+			for _, st := range sets {
+				if strings.HasPrefix(st, lastVar+"=resultTuple{") {
+					els := splitTop(strings.TrimSuffix(strings.TrimPrefix(st, lastVar+"=resultTuple{"), "}"), ",")
+					for i, el := range els {
+						if k := indexTop(el, ":"); k > 0 {
+							els[i] = el[k+1:]
+						}
+					}
+					okStore = len(els) == 3 && strings.HasPrefix(els[0], "res0("+rv+".parseRule(") && els[1] == okText
+				}
+				if errsVar != "" && st == errsVar+"=*"+rv+".errs" {
+					okErrs = true
+				}
+			}
+			for _, cl := range calls {
+				if strings.HasPrefix(cl, rv+".restore(") {
+					okRestore = true
+				}
+			}
+			if !okStore {
+				bad = append(bad, "a continuing iteration does not store (value, ok, end) of the attempt as the new best result")
+			}
+			if !okErrs || errsVar == "" {
+				bad = append(bad, "a continuing iteration does not take a snapshot of the error list")
+			}
+			if !okRestore {
+				bad = append(bad, "a continuing iteration does not reset the position to the start mark before the next attempt")
 			}
 		}
 	}
+	bad = uniq(bad)
 	sort.Strings(bad)
 	if len(bad) > 0 {
-		r.Bad("C08-d", "T.parseRuleRecursiveLeader:strict-growth", v.Name, v.Where(loop.Pos()), strings.Join(bad, "; "))
+		r.Bad("C08-d", construct, v.Name, v.Where(loop.Pos()), strings.Join(bad, "; "))
 	} else {
-		r.Ok("C08-d", "T.parseRuleRecursiveLeader:strict-growth", v.Name, v.Where(loop.Pos()), "continues only on success with strictly larger end offset (offsets are bounded by len(data))")
+		r.Ok("C08-d", construct, v.Name, v.Where(loop.Pos()), fmt.Sprintf("%d iteration paths: continues exactly on success with (first round or strictly larger end offset); only then are result and error snapshot updated (offsets are bounded by len(data))", len(paths)))
 	}
+}
+
+// wholeParen: the text is one parenthesised expression.
+func wholeParen(s string) bool {
+	depth := 0
+	for i := 0; i < len(s); i++ {
+		switch s[i] {
+		case '(':
+			depth++
+		case ')':
+			depth--
+			if depth == 0 && i != len(s)-1 {
+				return false
+			}
+		}
+	}
+	return depth == 0
 }
 
 // c08Leaders (C08-e).
@@ -294,4 +442,25 @@ func c08Leaders(c *Ctx) {
 		bad = append(bad, lr["members"]...)
 	}
 	r.Check(len(bad) == 0, "C08-e", "G.builder.ComputeLeftRecursives:every-group-gets-a-leader", "", g.Where(cl.Pos()), "Leader set next to LeftRecursive in both branches; the leader of a component is findLeader(graph, component)", strings.Join(uniq(bad), "; "))
+}
+
+// firstGraphReadOnly (C08-f / C07-g).
+func firstGraphReadOnly(c *Ctx, rule string) {
+	r := c.R
+	g := c.G()
+	if g == nil {
+		return
+	}
+	bp := g.Pkg("builder")
+	cl := load.FuncDecl(bp, "", "ComputeLeftRecursives")
+	if cl == nil || cl.Body == nil {
+		r.Fatal("anchor builder.ComputeLeftRecursives not found")
+		return
+	}
+	n, bad := sharedGraphReadOnly(g, bp, cl)
+	if n < 3 {
+		r.Unk(rule, "G.builder.ComputeLeftRecursives:first-graph-read-only", "", g.Where(cl.Pos()), fmt.Sprintf("only %d aliases of the graph followed (the graph was followed into findLeader, FindCyclesInSCC and reduceGraph when the rule was written)", n))
+		return
+	}
+	r.Check(len(bad) == 0, rule, "G.builder.ComputeLeftRecursives:first-graph-read-only", "", g.Where(cl.Pos()), fmt.Sprintf("%d aliases of the graph followed through the consumers, none is stored into", n), strings.Join(bad, "; "))
 }
